@@ -82,25 +82,4 @@ theorem partsLoop_at_star (env : Env) : ∀ (pre post : List Part) (w : WS) (fir
     exact partsLoop_at_star env pre post _ false
 
 
-theorem noEmptyDelim_of_ws (ifs : Str) (hws : ∀ s ∈ ifs, wsRune s.r = true) :
-    ∀ (items : List Item) (st : SS), noEmptyDelim ifs st items = true
-  | [], st => rfl
-  | it :: rest, st => by
-    have ih := noEmptyDelim_of_ws ifs hws rest (splitStep ifs st it)
-    cases it with
-    | u s =>
-      simp only [noEmptyDelim, ih, Bool.and_true]
-      cases h : ifsRune ifs s.r with
-      | false => simp
-      | true =>
-        have : wsRune s.r = true := by
-          simp only [ifsRune, List.any_eq_true, beq_iff_eq] at h
-          obtain ⟨x, hx, hxr⟩ := h
-          rw [← hxr]; exact hws x hx
-        simp [this]
-    | lit b => simp only [noEmptyDelim, ih, Bool.not_false, Bool.and_self]
-    | quoted b => simp only [noEmptyDelim, ih, Bool.not_false, Bool.and_self]
-    | brk => simp only [noEmptyDelim, ih, Bool.not_false, Bool.and_self]
-
-
 end ShVerif.C22
